@@ -3,7 +3,7 @@ from __future__ import annotations
 import ast, time
 from harness.core import Task, OR, PROVED, REFUTED, UNKNOWN
 from harness import loader
-from contracts import settingsc
+from contracts import settingsc, metadata
 from contracts.common import *
 
 PROP = "C15"
@@ -82,7 +82,10 @@ def bounded_task():
 
 def build(tier, seed):
     set_tier(tier)
-    tasks = [a_task(PROP, settingsc.parse_to_dict), order_task(), bounded_task()]
+    def _meta():
+        return metadata.meta_preprocessor(PROP)
+    _meta.__name__ = "meta_preprocessor"
+    tasks = [a_task(PROP, settingsc.parse_to_dict), a_task(PROP, _meta), order_task(), bounded_task()]
     meta = {
         "trusted_base": TRUSTED_BASE,
         "assumptions": PYVC_ASSUMPTIONS + [
@@ -90,8 +93,8 @@ def build(tier, seed):
             "the type-directed conversion (convert_setting, __post_init__, normalise_paths) uses typing reflection (get_type_hints / get_origin) and is outside Engine A's "
             "subset: it is covered only by the bounded run over the real schema",
         ],
-        "functions_under_contract": fn_meta([("ford.settings", "_parse_to_dict", None)]) + [{"function": "ford.parse_arguments", "obligations": "statement order (AST)"}],
-        "unverified_surroundings": ["convert_setting / convert_types_from_metapreprocessor / __post_init__ / normalise_paths (reflection)", "meta_preprocessor (C03)", "argparse"],
+        "functions_under_contract": fn_meta([("ford.settings", "_parse_to_dict", None), ("ford.utils", "meta_preprocessor", "regex constants opaque (uninterpreted match predicate / groups)")]) + [{"function": "ford.parse_arguments", "obligations": "statement order (AST)"}],
+        "unverified_surroundings": ["convert_setting / convert_types_from_metapreprocessor / __post_init__ / normalise_paths (reflection)", "argparse"],
         "explanation": "_parse_to_dict is proved to implement the documented meaning of `key SEP value` lines for every list of lines; the override order of parse_arguments is "
                        "read from its AST. Format equivalence over the whole schema is a bounded stand-in.",
     }
